@@ -10,6 +10,8 @@ mod c07;
 #[cfg(kani)]
 mod c13;
 #[cfg(kani)]
+mod c15;
+#[cfg(kani)]
 mod c16;
 #[cfg(kani)]
 mod probe;
